@@ -257,20 +257,68 @@ func (r *result) finish() {
 	r.keys = out
 }
 
-func collide(atoms map[string]ast.Atom) bool {
-	seen := map[ast.PredicateSym]map[uint64]bool{}
+// collide tells whether two different same-predicate atoms of the result have equal Atom.Hash() (K08). The lists
+// that aggregated predicates collect come out in the store's enumeration order, which differs from store to store
+// and (hash-keyed stores) from run to run: s1([1, 0]) collides with s1([1]) while s1([0, 1]) does not. For those
+// predicates every order of a collected list counts (up to 720 orders per atom; beyond that a collision is assumed).
+func collide(atoms map[string]ast.Atom, aggregated func(sym string) bool) bool {
+	seen := map[ast.PredicateSym]map[uint64]int{}
+	id := 0
 	for _, a := range atoms {
+		id++
 		m := seen[a.Predicate]
 		if m == nil {
-			m = map[uint64]bool{}
+			m = map[uint64]int{}
 			seen[a.Predicate] = m
 		}
-		if m[a.Hash()] {
-			return true
+		variants := []ast.Atom{a}
+		if aggregated != nil && aggregated(a.Predicate.Symbol) {
+			for i, arg := range a.Args {
+				c, ok := arg.(ast.Constant)
+				if !ok || c.Type != ast.ListShape {
+					continue
+				}
+				var elems []ast.Constant
+				c.ListValues(func(e ast.Constant) error { elems = append(elems, e); return nil }, func() error { return nil })
+				if len(elems) < 2 {
+					continue
+				}
+				if len(elems) > 6 || len(variants) > 1 {
+					if len(atoms) > 1 {
+						return true // too many orders to enumerate: assume one of them collides
+					}
+					continue
+				}
+				var next []ast.Atom
+				permuteConsts(elems, 0, func(p []ast.Constant) {
+					args := append([]ast.BaseTerm(nil), a.Args...)
+					args[i] = ast.List(append([]ast.Constant(nil), p...))
+					next = append(next, ast.Atom{Predicate: a.Predicate, Args: args})
+				})
+				variants = next
+			}
 		}
-		m[a.Hash()] = true
+		for _, x := range variants {
+			h := x.Hash()
+			if other, ok := m[h]; ok && other != id {
+				return true
+			}
+			m[h] = id
+		}
 	}
 	return false
+}
+
+func permuteConsts(xs []ast.Constant, k int, fn func([]ast.Constant)) {
+	if k == len(xs) {
+		fn(xs)
+		return
+	}
+	for i := k; i < len(xs); i++ {
+		xs[k], xs[i] = xs[i], xs[k]
+		permuteConsts(xs, k+1, fn)
+		xs[k], xs[i] = xs[i], xs[k]
+	}
 }
 
 func (r result) String() string {
@@ -362,7 +410,7 @@ func runPlain(g prog.Generated, v Variant) result {
 		}
 		res.keys = append(res.keys, normKey(name, a.Args))
 	}
-	res.collides = collide(o.Facts)
+	res.collides = collide(o.Facts, func(sym string) bool { return strings.HasPrefix(back[sym], "s") })
 	res.finish()
 	return res
 }
